@@ -178,7 +178,13 @@ func schedOnce(o SchedOpts) SchedStats {
 		case vsched.StDiverged:
 			panic(fmt.Sprintf("ENGINE-ERROR: scenario %s: replay diverged: %s (prefix %v)", o.Name, res.Diverged, it.prefix))
 		case vsched.StHorizon:
-			panic(fmt.Sprintf("ENGINE-ERROR: scenario %s: execution horizon hit after %d points (prefix %v)", o.Name, len(res.Points), it.prefix))
+			// The bodies need a few thousand scheduling points; one that is still
+			// running at the horizon (set far above that) without any further input
+			// from the harness has a goroutine that spins or a set of goroutines
+			// that keep waking each other: a livelock, reported as such.
+			st.Violation = &Violation{Scenario: o.Name, Message: fmt.Sprintf("no quiescence: still running after %d scheduling points without further input (a goroutine spins, or goroutines keep waking each other)", len(res.Points)),
+				Choices: append([]int{}, res.Choices[:min(len(res.Choices), 4000)]...), Log: res.Log}
+			return st
 		case vsched.StPruned:
 			st.Pruned++
 			// failures recorded before the merge point still count
